@@ -28,6 +28,9 @@
 //!                — each at capacity −1 / = / +1 (and 0 / negative / huge), in fpgm, prep and glyph programs.
 //!  * `glyf`      point, contour, composite point, component count and component depth at the maxp values ± 1,
 //!                run through the whole skrifa driver (plan "min": caller memory included).
+//!  * `scratch`   (part × lo..=hi) the size of the library-allocated draw scratch buffer swept over every value a glyph
+//!                of 1..=4000 real / claimed points or 1..=1000 components can produce, across the stack buckets
+//!                512/1024/2048/4096/8192/16384 of `outline::memory::with_temporary_memory`; see section (5).
 //!
 //! Oracle: as everywhere in C02 — every call returns, none panics.
 
@@ -55,6 +58,8 @@ pub enum Kind {
     CffVar,
     Tt,
     Glyf,
+    /// scratch-size sweep: draw glyph `gid` with library-allocated and exactly-sized caller memory
+    Scratch,
 }
 
 pub struct Item {
@@ -824,6 +829,18 @@ fn simple(points: usize, contours: usize, instr: &[u8]) -> Glyph {
     })
 }
 
+/// One contour of `points` on-curve points in a zig-zag whose coordinates stay small for any count
+/// (`simple` computes 10 * i in i16, which overflows beyond 3275 points).
+fn simple_any(points: usize, instr: &[u8]) -> Glyph {
+    let pts: Vec<CurvePoint> = (0..points).map(|i| CurvePoint::new(10 * (i % 300) as i16, if i % 2 == 0 { 0 } else { 50 + (i / 300) as i16 }, true)).collect();
+    let contour: Contour = pts.into();
+    Glyph::Simple(SimpleGlyph {
+        bbox: Bbox { x_min: 0, y_min: 0, x_max: 2990, y_max: 100 },
+        contours: vec![contour],
+        instructions: instr.to_vec(),
+    })
+}
+
 fn comp_of(gids: &[u16]) -> Glyph {
     let mk = |g: u16| Component::new(GlyphId16::new(g), Anchor::Offset { x: 5, y: 5 }, Transform::default(), ComponentFlags::default());
     let bb = Bbox { x_min: 0, y_min: 0, x_max: 600, y_max: 200 };
@@ -889,6 +906,223 @@ fn items_glyf(_spec: &Value) -> Option<(Kind, Vec<Item>)> {
 }
 
 // ---------------------------------------------------------------------------------------------
+// (5) scratch-size sweep of the library-allocated draw path (`outline::memory::with_temporary_memory`)
+// ---------------------------------------------------------------------------------------------
+//
+// `OutlineGlyph::draw` without caller memory sizes its own scratch buffer from `draw_memory_size` and picks
+// a stack bucket (512 / 1024 / 2048 / 4096 / 8192 / 16384 bytes) or the heap. The sweep makes that size take
+// every value reachable by a glyph of 1..=4000 points (17 bytes per point unhinted, 25 hinted, 33 / 41 with
+// variations; 19 per 1-point component), so every bucket bound is crossed with all the sizes just below and
+// above it. Parts (each item is one font; the glyph drawn is `scratch_gid(part)`):
+//  * `real`     hand-built font, glyph 1 = simple glyph with N real points, one instruction byte, N in lo..=hi
+//  * `claimed`  hand-built font, glyph 1 = 8-point simple glyph whose last endPtsOfContours entry is patched
+//               to N-1 (the size is computed from the claim before the point data is found to be short)
+//  * `comp1`    glyph 2 = composite of k components of a 1-point glyph, k in lo..=hi
+//  * `comp16`   glyph 2 = composite of k components of a 16-point glyph, k in lo..=hi
+//  * `var`      corpus font SCRATCH_VAR_SEED (glyf + gvar), its first simple glyph with a contour, last
+//               endPtsOfContours patched to N-1; drawn at the default location and at all axes +0.5
+pub const SCRATCH_PARTS: [(&str, usize, usize); 5] = [("real", 4000, 250), ("claimed", 4000, 1000), ("comp1", 1000, 250), ("comp16", 250, 125), ("var", 4000, 1000)];
+pub const SCRATCH_VAR_SEED: &str = "font-test-data/test_data/ttf/vazirmatn_var_trimmed.ttf";
+pub const SCRATCH_BOUNDS: [usize; 6] = [512, 1024, 2048, 4096, 8192, 16384];
+const SCRATCH_CLASS_COUNTERS: [&str; 7] = [
+    "scratch_lib_alloc_le_512",
+    "scratch_lib_alloc_le_1024",
+    "scratch_lib_alloc_le_2048",
+    "scratch_lib_alloc_le_4096",
+    "scratch_lib_alloc_le_8192",
+    "scratch_lib_alloc_le_16384",
+    "scratch_lib_alloc_heap",
+];
+
+fn rd16(d: &[u8], o: usize) -> Option<usize> {
+    Some(u16::from_be_bytes([*d.get(o)?, *d.get(o + 1)?]) as usize)
+}
+fn rd32(d: &[u8], o: usize) -> Option<usize> {
+    Some(u32::from_be_bytes([*d.get(o)?, *d.get(o + 1)?, *d.get(o + 2)?, *d.get(o + 3)?]) as usize)
+}
+
+/// (gid, file offset of the last endPtsOfContours entry) of the first simple glyph with >= 1 contour at or
+/// after `from_gid`. Own loca/glyf walk, independent of the code under test.
+fn first_simple_glyph(font: &[u8], from_gid: usize) -> Option<(u32, usize)> {
+    let dir = crate::fontcase::table_dir(font);
+    let tab = |t: &str| dir.iter().find(|(n, _, _)| n == t).map(|(_, o, l)| (*o, *l));
+    let (head, _) = tab("head")?;
+    let (loca, loca_len) = tab("loca")?;
+    let (glyf, _) = tab("glyf")?;
+    let long = rd16(font, head + 50)? == 1;
+    let n = if long { loca_len / 4 } else { loca_len / 2 }.saturating_sub(1);
+    let at = |i: usize| if long { rd32(font, loca + 4 * i) } else { rd16(font, loca + 2 * i).map(|x| 2 * x) };
+    for gid in from_gid..n {
+        let (a, b) = (at(gid)?, at(gid + 1)?);
+        if b < a + 12 {
+            continue;
+        }
+        let nc = rd16(font, glyf + a)?;
+        if (1..0x8000).contains(&nc) {
+            return Some((gid as u32, glyf + a + 10 + 2 * (nc - 1)));
+        }
+    }
+    None
+}
+
+fn claim_points(font: &[u8], pos: usize, n: usize) -> Vec<u8> {
+    let mut f = font.to_vec();
+    f[pos..pos + 2].copy_from_slice(&((n - 1) as u16).to_be_bytes());
+    f
+}
+
+fn scratch_gid(part: &str) -> u32 {
+    match part {
+        "comp1" | "comp16" => 2,
+        "var" => crate::fontcase::seed_bytes(SCRATCH_VAR_SEED).and_then(|f| first_simple_glyph(f, 1)).map(|x| x.0).unwrap_or(0),
+        _ => 1,
+    }
+}
+
+fn items_scratch(spec: &Value) -> Option<(Kind, Vec<Item>)> {
+    let part = spec["part"].as_str()?;
+    let (lo, hi) = (spec["lo"].as_u64()? as usize, spec["hi"].as_u64()? as usize);
+    let max = SCRATCH_PARTS.iter().find(|p| p.0 == part)?.1;
+    if lo < 1 || hi > max || lo > hi {
+        return None;
+    }
+    // generous maxp so that no declared limit interferes with the sweep
+    let maxp: [u16; 13] = [4096, 1024, 4096, 1024, 2, 4, 8, 4, 2, 32, 64, 1024, 4];
+    let mut out = vec![];
+    match part {
+        "real" => {
+            for n in lo..=hi {
+                out.push(Item {
+                    desc: format!("simple glyph with {n} real points (1 contour, 1 instruction byte)"),
+                    font: glyfgraph::build_with_maxp(&[Glyph::Empty, simple_any(n, &[0x4F])], &maxp),
+                });
+            }
+        }
+        "claimed" | "var" => {
+            let seed: Vec<u8> = if part == "var" {
+                crate::fontcase::seed_bytes(SCRATCH_VAR_SEED)?.to_vec()
+            } else {
+                glyfgraph::build_with_maxp(&[Glyph::Empty, simple(8, 1, &[0x4F])], &maxp)
+            };
+            let (gid, pos) = first_simple_glyph(&seed, 1)?;
+            for n in lo..=hi {
+                out.push(Item {
+                    desc: format!("{}: last endPtsOfContours of glyph {gid} (file offset {pos}) set to {} = {n} claimed points", if part == "var" { SCRATCH_VAR_SEED } else { "hand-built 8-point glyph" }, n - 1),
+                    font: claim_points(&seed, pos, n),
+                });
+            }
+        }
+        "comp1" | "comp16" => {
+            let p = if part == "comp1" { 1 } else { 16 };
+            for k in lo..=hi {
+                out.push(Item {
+                    desc: format!("composite of {k} components of a {p}-point glyph"),
+                    font: glyfgraph::build_with_maxp(&[Glyph::Empty, simple(p, 1, &[]), comp_of(&vec![1u16; k])], &maxp),
+                });
+            }
+        }
+        _ => return None,
+    }
+    Some((Kind::Scratch, out))
+}
+
+/// One item of the scratch sweep: at every location, draw `gid` unhinted (both path styles), hinted by the
+/// interpreter and by the auto-hinter, each once without caller memory and once with caller memory of exactly
+/// `draw_memory_size` bytes (two alignments). Oracle: every call returns (Ok and Err are both fine).
+fn exercise_scratch(acc: &mut Acc, font_bytes: &[u8], gid: u32, two_locations: bool) {
+    use skrifa::outline::{pen::PathStyle, Hinting};
+    let Some(Ok(font)) = acc.call(1, || FontRef::new(font_bytes)) else {
+        acc.count("font_rejected");
+        return;
+    };
+    let oc = font.outline_glyphs();
+    let Some(Some(g)) = acc.call(3, || oc.get(GlyphId::new(gid))) else {
+        acc.count("glyph_absent");
+        return;
+    };
+    let mut h = Fnv::new();
+    let mut any_ok = false;
+    let sizes = acc.call(3, || (g.draw_memory_size(Hinting::None), g.draw_memory_size(Hinting::Embedded)));
+    let Some((size_un, size_h)) = sizes else { return };
+    h.u64(size_un as u64);
+    h.u64(size_h as u64);
+    let class = |sz: usize| SCRATCH_BOUNDS.iter().position(|b| sz <= *b).unwrap_or(6);
+    let locs: Vec<Vec<NormalizedCoord>> = if two_locations {
+        let axes = font.axes().len();
+        vec![vec![], vec![NormalizedCoord::from_f32(0.5); axes]]
+    } else {
+        vec![vec![]]
+    };
+    let mut obs = |acc: &mut Acc, h: &mut Fnv, r: Option<(Result<(), skrifa::outline::DrawError>, HashPen)>| {
+        let Some((r, pen)) = r else {
+            h.byte(3);
+            return;
+        };
+        match r {
+            Ok(()) => {
+                acc.count("draw_ok");
+                any_ok |= pen.n > 0;
+                h.byte(1);
+                h.u64(pen.h.finish());
+            }
+            Err(e) => {
+                acc.count("draw_err");
+                h.byte(2);
+                h.str(&format!("{e:?}"));
+            }
+        }
+    };
+    for loc in &locs {
+        let lr = LocationRef::new(loc);
+        // unhinted: library-allocated, then caller memory of exactly draw_memory_size
+        for style in [PathStyle::FreeType, PathStyle::HarfBuzz] {
+            acc.count(SCRATCH_CLASS_COUNTERS[class(size_un)]);
+            let r = acc.call(4, || {
+                let mut pen = HashPen::default();
+                let r = g.draw(DrawSettings::unhinted(Size::new(16.0), lr).with_path_style(style), &mut pen);
+                (r.map(|_| ()), pen)
+            });
+            obs(acc, &mut h, r);
+            for align in [0usize, 1] {
+                let mut mem = skdrv::Mem::new(size_un, align);
+                acc.count("draws_with_caller_memory");
+                let r = acc.call(4, || {
+                    let mut pen = HashPen::default();
+                    let r = g.draw(DrawSettings::unhinted(Size::new(16.0), lr).with_path_style(style).with_memory(Some(mem.slice())), &mut pen);
+                    (r.map(|_| ()), pen)
+                });
+                obs(acc, &mut h, r);
+            }
+        }
+        // hinted: interpreter (Hinting::Embedded size) and auto (Hinting::None size)
+        for (engine, st_new, st_draw, sz) in [(Engine::Interpreter, 5usize, 8usize, size_h), (Engine::Auto(None), 6, 9, size_un)] {
+            let inst = acc.call(st_new, || HintingInstance::new(&oc, Size::new(16.0), lr, HintingOptions { engine, target: Target::default() }));
+            let Some(Ok(inst)) = inst else {
+                h.byte(9);
+                continue;
+            };
+            acc.count("instance_ok");
+            acc.count(SCRATCH_CLASS_COUNTERS[class(sz)]);
+            let r = acc.call(st_draw, || {
+                let mut pen = HashPen::default();
+                let r = g.draw(DrawSettings::hinted(&inst, false), &mut pen);
+                (r.map(|_| ()), pen)
+            });
+            obs(acc, &mut h, r);
+            let mut mem = skdrv::Mem::new(sz, 0);
+            acc.count("draws_with_caller_memory");
+            let r = acc.call(st_draw, || {
+                let mut pen = HashPen::default();
+                let r = g.draw(DrawSettings::hinted(&inst, false).with_memory(Some(mem.slice())), &mut pen);
+                (r.map(|_| ()), pen)
+            });
+            obs(acc, &mut h, r);
+        }
+    }
+    acc.observe(h.finish(), any_ok);
+}
+
+// ---------------------------------------------------------------------------------------------
 // driver
 // ---------------------------------------------------------------------------------------------
 
@@ -900,6 +1134,7 @@ pub fn items(spec: &Value) -> Option<(Kind, Vec<Item>)> {
         "cffdict" => items_cffdict(spec),
         "tt" => items_tt(spec),
         "glyf" => items_glyf(spec),
+        "scratch" => items_scratch(spec),
         _ => None,
     }
 }
@@ -1006,6 +1241,10 @@ pub fn drive(spec: &Value) -> CaseOut {
             Kind::Cff => exercise_cff(&mut acc, &item.font, false),
             Kind::CffVar => exercise_cff(&mut acc, &item.font, true),
             Kind::Tt => ttprog::exercise(&mut acc, &item.font),
+            Kind::Scratch => {
+                let part = spec["part"].as_str().unwrap_or("");
+                exercise_scratch(&mut acc, &item.font, scratch_gid(part), part == "var")
+            }
             Kind::Glyf => {
                 // the whole skrifa configuration driver (plan "min") on the synthesised font
                 let out = skdrv::run(&item.font, &plan);
@@ -1048,6 +1287,14 @@ pub fn gen_cases() -> Vec<Value> {
         out.push(json!({"driver": "capfam", "family": "tt", "group": g}));
     }
     out.push(json!({"driver": "capfam", "family": "glyf"}));
+    for (part, max, chunk) in SCRATCH_PARTS {
+        let mut lo = 1;
+        while lo <= max {
+            let hi = (lo + chunk - 1).min(max);
+            out.push(json!({"driver": "capfam", "family": "scratch", "part": part, "lo": lo, "hi": hi}));
+            lo = hi + 1;
+        }
+    }
     out
 }
 
@@ -1062,6 +1309,10 @@ pub fn bounds() -> Value {
         "cffdict": {"arrays": DICT_ARRAYS.iter().map(|a| format!("{} (capacity {})", a.0, a.2)).collect::<Vec<_>>(), "operand_counts": "0,1,2, capacity-2..=+2, 40, 47, 48, 49",
             "real_numbers": "BlueScale with 1,29..34,64,200 digits in 3 forms (32-byte parse buffer)", "formats": ["cff", "cff2"]},
         "tt": {"groups": TT_GROUPS, "note": "each capacity at -1 / = / +1 plus 0, negative and huge values; fpgm, prep and glyph programs"},
+        "scratch": {"parts": SCRATCH_PARTS.iter().map(|p| format!("{}: every count in 1..={} (cases of {})", p.0, p.1, p.2)).collect::<Vec<_>>(), "var_seed": SCRATCH_VAR_SEED,
+            "size_class_bounds_crossed": SCRATCH_BOUNDS, "ppem": 16.0,
+            "draws_per_item_and_location": "unhinted FreeType + HarfBuzz path styles, interpreter-hinted, auto-hinted; each without caller memory and with caller memory of exactly draw_memory_size",
+            "locations": "default; part var also all axes +0.5"},
         "glyf": "points 7/8/9/16 vs maxPoints 8; contours 1/2/3 vs maxContours 2; k=1..3 components vs maxCompositePoints 4k±1 and maxComponentElements k±1; nesting d=1..3 vs maxComponentDepth d±1; all-zero maxp",
     })
 }
